@@ -1084,6 +1084,8 @@ class AstEval:
 
     async def ast_classdef(self, arg):
         """Evaluate class definition."""
+        # decorator expressions are evaluated first, then bases, keywords and the body
+        decorators = [await self.aeval(dec) for dec in arg.decorator_list]
         bases = [(await self.aeval(base)) for base in arg.bases]
         keywords = {kw.arg: await self.aeval(kw.value) for kw in arg.keywords}
         metaclass = keywords.pop("metaclass", type(bases[0]) if bases else type)
@@ -1107,7 +1109,6 @@ class AstEval:
                 raise SyntaxError(f"{val.name()} statement outside loop")
         self.sym_table = self.sym_table_stack.pop()
 
-        decorators = [await self.aeval(dec) for dec in arg.decorator_list]
         sym_table["__init__evalfunc_wrap__"] = None
         if "__init__" in sym_table:
             sym_table["__init__evalfunc_wrap__"] = sym_table["__init__"]
